@@ -411,13 +411,67 @@ func (p *Prog) constantFreshRule(r *Report, rule string) {
 			}
 		})
 	}
+	// and no function hands the folded list itself out: the list obtained by asserting the constant to pyList may only go
+	// into the copy helper (or be read)
+	escapes := ""
+	for _, g := range p.Funcs("parse/asp") {
+		if g == cst {
+			continue
+		}
+		eachInstr(g, false, func(_ *ssa.Function, i ssa.Instruction) {
+			ta, ok := i.(*ssa.TypeAssert)
+			if !ok || !strings.HasSuffix(typeString(ta.AssertedType), "pyList") {
+				return
+			}
+			fromConst := false
+			for x := range backSlice(ta.X, SliceOpts{StopAtCall: func(*ssa.Call) bool { return true }}) {
+				if fieldKey(x) == "parse/asp.optimisedExpression.Constant" {
+					fromConst = true
+				}
+			}
+			if !fromConst {
+				return
+			}
+			var vals []ssa.Value
+			if ta.CommaOk {
+				if refs := ta.Referrers(); refs != nil {
+					for _, u := range *refs {
+						if e, ok := u.(*ssa.Extract); ok && e.Index == 0 {
+							vals = append(vals, e)
+						}
+					}
+				}
+			} else {
+				vals = []ssa.Value{ta}
+			}
+			for _, v := range vals {
+				if refs := v.Referrers(); refs != nil {
+					for _, u := range *refs {
+						switch x := u.(type) {
+						case *ssa.MakeInterface, *ssa.Return, *ssa.Store, *ssa.MapUpdate, *ssa.Phi:
+							escapes = fnName(g)
+						case *ssa.Call:
+							if x.Call.StaticCallee() == nil || x.Call.StaticCallee().Name() != "copyConstantList" {
+								if b, isB := x.Call.Value.(*ssa.Builtin); !isB || b.Name() != "len" {
+									escapes = fnName(g)
+								}
+							}
+						}
+					}
+				}
+			}
+		})
+	}
+	if escapes != "" {
+		copies = false
+	}
 	okk := !foldsList || copies
 	st := "discharged"
 	if !okk {
 		st = "violated"
 	}
 	r.add(Obligation{Rule: rule, Instance: "a folded list literal is not handed out twice", Site: p.pos(cst.Pos()), Func: fnName(cst), Status: st, Path: true, Key: rule + "|" + fnName(cst) + "|list literal",
-		Detail: "scope.Constant folds list literals into one pyList stored on the expression and the interpreter returns that same object on every evaluation: `def lit(): return [3,1,2]`; `a = lit(); a[0] = 99; lit()` yields [99,1,2]"})
+		Detail: "scope.Constant folds list literals into one pyList stored on the expression and the interpreter hands that same object out on some evaluation path" + map[bool]string{true: " (in " + escapes + ")", false: ""}[escapes != ""] + ": `def lit(): return [3,1,2]`; `a = lit(); a[0] = 99; lit()` yields [99,1,2]; likewise items of a nested literal that a loop iterates over directly"})
 }
 
 // sliceFreshRule: a slice expression on a list evaluates to a list of its own (CPython copies), so that writing to the
